@@ -70,7 +70,7 @@ func parseRaceLogs(dir string) (int, map[string]int, string) {
 					inStack = false
 					continue
 				}
-				if inStack && !got && i+1 < len(block) && strings.Contains(block[i+1], "/repo/") {
+				if inStack && !got && i+1 < len(block) && strings.Contains(block[i+1], drv.RepoRoot+"/") {
 					fn := strings.TrimSpace(l)
 					if k := strings.Index(fn, "("); k > 0 {
 						fn = fn[:k]
